@@ -300,6 +300,35 @@ theorem C09_quantity_via_third {c : Converter Rat} (hc : c.Sound) (q q1 q2 q3 : 
   rw [hkb] at hkb'; cases hkb'
   exact ⟨r2.info.trans r3.info.symm, cvm_restated_same hc (r1.trans r2) r3⟩
 
+/-- Totality of the first clause: a numeric or range quantity in a known unit `u` converts to
+    every known unit `t` of the same physical quantity (there is no other way to fail than the ones
+    listed in `C09_failures_unchanged`), and the result is in `t` with the same amounts. -/
+theorem C09_convert_between_known_succeeds {c : Converter Rat} (hc : c.Sound) (q : SQuantity Rat)
+    (u t : Unit Rat) (k : Str) (hu : unitInfo c q = some u) (hv : q.value.isText = false)
+    (hk : c.findUnit k = some t) (hq : u.pq = t.pq) :
+    ∃ q', convertImpl c q (.unit (.key k)) = (q', .ok ()) ∧ unitInfo c q' = some t ∧
+      q'.value.parts.map (fun x => amount x t) = q.value.parts.map (fun x => amount x u) := by
+  obtain ⟨q', h, hr⟩ := cvm_convert_unit_succeeds hc q u t k hu hv hk hq
+  exact ⟨q', h, hr.info, hr.amounts⟩
+
+/-- every best list of the shipped converter (five quantities × two systems) is non-empty -/
+theorem C09_bundled_best_nonempty : bestListsNonempty (Converter.bundled Rat) = true := by
+  decide +kernel
+
+/-- For both target systems: with the shipped converter, converting a numeric or range quantity in
+    a known unit to a system always succeeds, in a unit of that system's list for the quantity,
+    with the same amounts. (For any sound converter it succeeds iff that list is non-empty:
+    `cvm_convert_best_succeeds`, `C09_failures_unchanged`.) -/
+theorem C09_convert_to_system_succeeds (q : SQuantity Rat) (u : Unit Rat) (s : System)
+    (hu : unitInfo (Converter.bundled Rat) q = some u) (hv : q.value.isText = false) :
+    ∃ q' nu, convertImpl (Converter.bundled Rat) q (.best s) = (q', .ok ()) ∧
+      unitInfo (Converter.bundled Rat) q' = some nu ∧ nu.pq = u.pq ∧
+      nu ∈ (((Converter.bundled Rat).best u.pq).conversions s).unitsOf ∧
+      q'.value.parts.map (fun x => amount x nu) = q.value.parts.map (fun x => amount x u) := by
+  obtain ⟨q', nu, h, hr, hl⟩ := cvm_convert_best_succeeds C09_bundled_sound q u s hu hv
+    (cvm_bestListsNonempty C09_bundled_best_nonempty _ _)
+  exact ⟨q', nu, h, hr.info, hr.pq, hl, hr.amounts⟩
+
 /-- `ScaledRecipe::convert` on a whole recipe, position by position, for a sound converter: every
     ingredient and timer keeps all its other fields and its quantity is `QuantityConverted` (absent
     stays absent; present is either restated with the same amounts in a unit of the target
